@@ -454,3 +454,40 @@ SPECS['C14'] = dict(queries=c14, assumptions=SPECS['C03']['assumptions'][:-1] + 
     "an unlimited budget: it must run to completion; a blocking primitive whose condition is false, or a fair-spin yield that nobody can release, ends the run unfinished",
     "converse queries: after the prefix all readers run to completion and then the writer alone must complete (no deadlock / livelock between readers and writers)"],
     outside=["the cow_guarded clause is decided by the C04 harness queries listed there", "more than 3 threads; prefixes longer than R rounds"])
+
+
+# ------------------------------------------------------------------------------------------------ C19
+def c19(tier):
+    qs = []
+    O, D, X = ('O', 'vp_owner'), ('D', 'vp_detector'), ('X', 'vp_other')
+    kinds = {'explicit': 1, 'declared': 2, 'indexed': 3}
+    # the two accessor functions that own the function-local statics run as one atomic step (their initialisation is serialised
+    # by the ABI guard anyway); everything else (shared_ptr copies, the trip store, the detector load) interleaves freely
+    o = {'yield_blocks': False, 'noinline': ['@_ZN4gmlc11concurrency8TripWire14getIndexedLineEj', '@_ZN4gmlc11concurrency8TripWire7getLineEv']}
+    if tier == 'quick':
+        for kn, k in kinds.items():
+            qs.append(mk(f'trip_{kn}_owner_det_R3', 'c19_tripwire.cpp', [O, D], 3, final='vp_final', cover=3, defines=[f'LINEKIND={k}'],
+                         opts=o, unwind=4, checks='pointer', must_cover=4, timeout=900))
+        qs.append(mk('trip_explicit_owner_other_R3', 'c19_tripwire.cpp', [O, X], 3, final='vp_final', cover=3, defines=['LINEKIND=1'],
+                     opts=o, unwind=4, checks='pointer', timeout=900))
+        qs.append(mk('trip_indexed_seq', 'c19_tripwire.cpp', [], 1, seq=['vp_seq'], cover=1, defines=['LINEKIND=3'], unwind=4, checks='pointer'))
+    else:
+        for kn, k in kinds.items():
+            for od in orders(3, 'all')[:3]:
+                qs.append(mk(f'trip_{kn}_R3_o' + ''.join(map(str, od)), 'c19_tripwire.cpp', [O, D, X], 3, order=od, final='vp_final', cover=3,
+                             defines=[f'LINEKIND={k}'], opts=o, unwind=4, checks='pointer', must_cover=4, timeout=3000))
+            qs.append(mk(f'trip_{kn}_2det_R3', 'c19_tripwire.cpp', [O, D, ('D2', 'vp_detector')], 3, final='vp_final', cover=3, defines=[f'LINEKIND={k}', 'TWO_DET'],
+                         opts=o, unwind=4, checks='pointer', timeout=3000))
+            qs.append(mk(f'trip_{kn}_owner_det_R4', 'c19_tripwire.cpp', [O, D], 4, final='vp_final', cover=3, defines=[f'LINEKIND={k}'],
+                         opts=o, unwind=4, checks='pointer', must_cover=4, timeout=3000))
+        qs.append(mk('trip_indexed_seq', 'c19_tripwire.cpp', [], 1, seq=['vp_seq'], cover=1, defines=['LINEKIND=3'], unwind=4, checks='pointer'))
+    return qs
+
+
+SPECS['C19'] = dict(queries=c19, assumptions=COMMON_ASSUMPTIONS + [
+    "the owner's handling of the trigger is a symbolic choice: destroy | move-construct then destroy both | move-assign over a trigger of the other line",
+    "shared_ptr control blocks (make_shared) are real libstdc++ header code; their virtual dispose/destroy run atomically",
+    "function-local statics (DECLARE_TRIPLINE / DECLARE_INDEXED_TRIPLINES) use a model of __cxa_guard_acquire/release that runs the initialiser once",
+    "std::vector::at() out-of-range is modelled as a real throw of std::out_of_range (caught in the harness)",
+    "publication ('everything written before ... is visible') is decided under sequential consistency here and under the happens-before monitor in C07"],
+    outside=["more than one trigger per line alive at the same time", "more than 3 threads"])
